@@ -446,6 +446,11 @@ func (ex *Exec) evalCall(e *Expr, env *Env) Val {
 			if s, ok := v.(SliceV); ok {
 				return Scalar{T: s.Cap, Typ: types.Typ[types.Int]}
 			}
+			if c, ok := v.(Scalar); ok && c.T != nil && c.Typ != nil {
+				if _, isChan := under(c.Typ).(*types.Chan); isChan {
+					return Scalar{T: ts.App("chancap", ex.idxSort(), c.T), Typ: types.Typ[types.Int]}
+				}
+			}
 			unsup("contract: cap of %T", v)
 		case "old":
 			if env.old == nil {
